@@ -19,6 +19,7 @@ def run(model, rep, tier):
     c07.r5_channel_separation(ctx, rep, R='C02.R6')
     r7_discovery_contains_user_code(ctx, rep)
     c07.r10_report_only_after_completed_run(ctx, rep, R='C02.R8')
+    accumulators_never_discarded(ctx, rep, 'C02.R9')
     rep.units['cfg'] = ctx.cfg_stats
 
 
@@ -430,3 +431,86 @@ def r7_discovery_contains_user_code(ctx, rep, R='C02.R7'):
               'calls sys.exit() ends the run with the module\'s own exit status' % extra,
               key='find_suites escapes %s' % extra, func=fs.qualname, where=ctx.where(fs, fs.node),
               path=path)
+
+
+# ---------------------------------------------------------------------------------------------
+# R9 -- what was recorded stays recorded
+
+RUNNER_ACCS = ('errors', 'failures', 'import_errors', 'skipped')
+# who may bind an accumulator of the Runner (one reason each)
+ACC_BINDERS = {
+    ('runner.Runner.__init__', 'errors'): 'created empty',
+    ('runner.Runner.__init__', 'failures'): 'created empty',
+    ('runner.Runner.__init__', 'import_errors'): 'created empty',
+    ('runner.Runner.__init__', 'skipped'): 'created empty',
+    ('find.Find.global_setup', 'import_errors'): 'the start-up failures found by discovery (before anything else is recorded there)',
+}
+
+
+def _runner_acc(ctx, fi, e):
+    """accumulator name when *e* denotes <the Runner>.<accumulator>"""
+    d = dotted(e)
+    if not d or '.' not in d:
+        return None
+    recv, attr = d.rsplit('.', 1)
+    if attr not in RUNNER_ACCS:
+        return None
+    owner = fi
+    while owner is not None and owner.cls is None:
+        owner = owner.parent
+    in_runner = owner is not None and owner.cls.qualname == 'runner.Runner'
+    if recv == 'self' and in_runner:
+        return attr
+    if recv in ('runner', 'self.runner'):
+        return attr
+    return None
+
+
+def accumulators_never_discarded(ctx, rep, R):
+    rep.rule(R, 'what was recorded stays recorded: the Runner\'s accumulators (errors, failures, '
+             'import_errors, skipped) are bound only where they are created (who-may-bind table) and '
+             'nothing removes entries from them (clear / pop / remove / del / slice assignment) -- an '
+             'error recorded before the layer loop (a child that cannot find its layer, an import '
+             'failure) must still be there when the verdict is computed and the report written')
+    m = ctx.model
+    n = 0
+    for fi in m.all_functions():
+        if fi.module.name.startswith('tests'):
+            continue
+        for x in ast.walk(fi.node):
+            targets = []
+            if isinstance(x, ast.Assign):
+                for t in x.targets:
+                    targets += list(t.elts) if isinstance(t, (ast.Tuple, ast.List)) else [t]
+            elif isinstance(x, (ast.AugAssign, ast.AnnAssign)):
+                targets = [x.target]
+            elif isinstance(x, ast.Delete):
+                targets = list(x.targets)
+            for t in targets:
+                acc = _runner_acc(ctx, fi, t)
+                what = 're-bound'
+                if acc is None and isinstance(t, ast.Subscript):
+                    acc = _runner_acc(ctx, fi, t.value)
+                    what = 'entries replaced / deleted (%s)' % norm(t)
+                if acc is None:
+                    continue
+                if isinstance(x, ast.AugAssign) and isinstance(x.op, ast.Add) and what == 're-bound':
+                    continue            # += only adds
+                n += 1
+                ok = what == 're-bound' and isinstance(x, ast.Assign) and (fi.qualname, acc) in ACC_BINDERS
+                rep.check(ok, R, '%s binds %s' % (fi.qualname, acc),
+                          'the accumulator %s of the Runner is %s in %s: outcomes recorded before this '
+                          'statement are dropped from the verdict, the totals and the report' % (
+                              acc, what, fi.qualname), key='acc-bind:%s:%s' % (fi.qualname, acc),
+                          func=fi.qualname, where=ctx.where(fi, x),
+                          detail=ACC_BINDERS.get((fi.qualname, acc), ''))
+            if isinstance(x, ast.Call) and isinstance(x.func, ast.Attribute) and \
+                    x.func.attr in ('clear', 'pop', 'remove', '__delitem__', 'sort', 'reverse'):
+                acc = _runner_acc(ctx, fi, x.func.value)
+                if acc is not None and x.func.attr not in ('sort', 'reverse'):
+                    n += 1
+                    rep.check(False, R, '%s: %s' % (fi.qualname, norm(x)),
+                              'entries are removed from the accumulator %s of the Runner (%s)' % (acc, norm(x)),
+                              key='acc-remove:%s:%s' % (fi.qualname, acc), func=fi.qualname,
+                              where=ctx.where(fi, x))
+    rep.floor(R, n, 5, 'binding sites of the Runner accumulators')
